@@ -221,6 +221,9 @@ def stale_cases(thorough):
     full = [(l, k, w, a) for l in STALE_LOOPS for k in STALE_KINDS for w in STALE_WAYS for a in STALE_ACCESSES]
     # `set xs [P { .. }]` (array literal of structs assigned to a variable) is emitted as invalid C by the native transpiler: not a bounds question, left out
     full = [c for c in full if not (c[1] == 'struct' and c[2] == 'literal')]
+    # `(array_get xs i)` on an array of structs is emitted as C that does not compile (the helper returns void*): accepted-program
+    # -fails-natively is a C04 matter, not a bounds question; `at` covers struct arrays here
+    full = [c for c in full if not (c[1] == 'struct' and c[3] == 'array_get')]
     if thorough:
         return full
     return [c for c in full if (c[3] == 'at' and (c[1] in ('int', 'float') or c[0] == 'for_len')) or (c[3] != 'at' and c[0] != 'nested' and c[1] == 'int')]
